@@ -107,6 +107,7 @@ CHECKS = {
     "4/C13", TB_REALS + CORR + "GN and L-BFGS directions are oracles (nothing about them is needed for what Converged certifies); fmax/fmin modelled by cmax/cmin (equal without NaN); chain rule assumed; interpretation: the criteria are defined on the pair (u_k, u_hat_k), the returned point is u_hat_k (measured: residual at u_hat_k never exceeded tol).",
     "Coq proofs on generated chain + OCP kernels + whole-loop PANOC-OCP model (whole-run correspondence) + record-level correspondence + independent roll-out oracle"),
  "C14": C("proof",
+    "sparsity-conversions.hpp is TRANSLATED on every run (SparsityGen.v: all 9 converters, 45 definitions; SparsityGenEq.v: 86 equalities up to whole conversions; run against the implementation). "
     "13 axiom-free theorems over a transcription of all 9 SparsityConverter specialisations: a successful conversion preserves the dense matrix entry by entry for all shapes (incl. 0xN), patterns and value vectors; dims, symmetry mirroring, first_index and order requests honoured, order tag truthful, invalid inputs rejected. Correspondence over all pairs x index types x requests; oracle: dense reconstruction.",
     "4/C14", "Coq 8.16.1 kernel, no axioms (closed under the global context); " + CORR + "index widths are tags (overflow not modelled); COO->CSC and CSC sorting throw in this build (macro off) and are modelled as such; duplicates excluded.",
     "Coq proofs over nat/Z + correspondence + dense-reconstruction oracle"),
@@ -117,6 +118,7 @@ CHECKS = {
     "4/C16", "Coq 8.16.1 kernel, no axioms; " + CORR + "memory safety proper is observed by the driver's own address/block registry (no sanitizer), not proved; vtable contents and throwing allocators not exercised.",
     "Coq inductive invariant over operation histories + snapshot correspondence against the instrumented implementation"),
  "C17": C("proof",
+    "csv.tpp's reader members and the print precision rule are TRANSLATED on every run (CsvGen.v; CsvGenEq.v: 37 equalities up to whole rows; byte-level validation). "
     "13 axiom-free theorems on a byte-level model of the stream and the 64-byte chunked reader: for ALL field lengths, row lengths, chunk alignments and comment lengths the reader returns exactly the row spec or a read error (never altered numbers), leaves the stream at the next row, over-long fields are rejected, print->read round trip under stated from_chars/to_chars premises (proved outright for integers). "
     "Correspondence on the real reader (values, bytes left, stream flags); oracle: bit-exact round trips for double/float/long double, corruptions, alignments.",
     "4/C17", "Coq 8.16.1 kernel, no axioms; " + CORR + "floating-point from_chars/to_chars (libstdc++) are premises, sampled by the oracle; rows ended by EOF by correspondence only; known finding C17:long-double-subnormal-rejected.",
